@@ -179,6 +179,8 @@ LM = "maze_dataset.maze.lattice_maze"
 MD = "maze_dataset.dataset.maze_dataset"
 DS = "maze_dataset.dataset.dataset"
 SCOPES: dict[str, list[str]] = {
+    "C01": ["maze_dataset.generation.generators.", f"{LM}._fill_edges_with_walls"],
+    "C12": ["maze_dataset.generation.generators.", f"{LM}.LatticeMaze.get_connected_component", f"{LM}.LatticeMaze.gen_connected_component_from"],
     "C02": [f"{LM}.LatticeMaze.find_shortest_path", f"{LM}.LatticeMaze.heuristic", f"{LM}.LatticeMaze.get_coord_neighbors", f"{LM}.LatticeMaze.nodes_connected"],
     "C03": [f"{LM}.LatticeMaze.generate_random_path", f"{LM}.LatticeMaze.get_connected_component", f"{MD}._generate_maze_helper", f"{MD}.MazeDataset.generate",
             f"{LM}.SolvedMaze.from_lattice_maze", f"{LM}.SolvedMaze.from_targeted_lattice_maze"],
@@ -221,6 +223,177 @@ STATE_WRITERS = {
 }
 
 
+def memoised_ok() -> dict:
+    """memoised functions of the pinned tree whose results are mutable (reference/exits.json["memoised"], confirmed by reading):
+    argument-less enumerations of all tokenizers, and cached properties of frozen tokenizer / collected-dataset objects that are
+    derived from the object's own fields"""
+    return reference().get("memoised", {})
+
+
+_MEMO_DECORATORS = {"cache", "lru_cache", "functools.cache", "functools.lru_cache", "cached_property", "functools.cached_property"}
+_IMMUTABLE_RESULTS = {"int", "float", "bool", "str", "bytes", "None", "complex", "frozenset", "tuple", "type", "Coord", "CoordTup"} - {"Coord"}
+
+
+def _immutable_annotation(a: ast.AST | None) -> bool:
+    "does the return annotation name a type whose values cannot be changed in place (so that sharing one result object is unobservable)?"
+    if a is None:
+        return False
+    if isinstance(a, ast.Constant):
+        if a.value is None:
+            return True
+        if isinstance(a.value, str):
+            try:
+                return _immutable_annotation(ast.parse(a.value, mode="eval").body)
+            except SyntaxError:
+                return False
+        return False
+    if isinstance(a, ast.Name):
+        return a.id in _IMMUTABLE_RESULTS
+    if isinstance(a, ast.BinOp) and isinstance(a.op, ast.BitOr):
+        return _immutable_annotation(a.left) and _immutable_annotation(a.right)
+    if isinstance(a, ast.Subscript):
+        head = X.U(a.value)
+        if head in ("tuple", "Tuple", "typing.Tuple", "frozenset", "FrozenSet"):
+            elts = a.slice.elts if isinstance(a.slice, ast.Tuple) else [a.slice]
+            return all(isinstance(e, ast.Constant) and e.value is Ellipsis or _immutable_annotation(e) for e in elts)
+        if head in ("Optional", "typing.Optional", "Union", "typing.Union"):
+            elts = a.slice.elts if isinstance(a.slice, ast.Tuple) else [a.slice]
+            return all(_immutable_annotation(e) for e in elts)
+    return False
+
+
+def memoised_mutable(fn_node: ast.AST) -> str | None:
+    "the memoising decorator of a function whose result can be changed in place by a caller (None: not memoised / immutable result)"
+    for d in getattr(fn_node, "decorator_list", []):
+        head = d.func if isinstance(d, ast.Call) else d
+        name = X.U(head)
+        if name in _MEMO_DECORATORS and not _immutable_annotation(getattr(fn_node, "returns", None)):
+            return X.U(d)
+    return None
+
+
+NARROW_DTYPES = {"int8", "uint8", "int16", "uint16", "float16", "short", "byte", "ubyte", "ushort", "half"}
+
+
+def narrowing_casts(fn_node: ast.AST) -> list[tuple[str, ast.AST]]:
+    """array constructions / casts with a narrow element type in a function: `f(..., dtype=np.int8)`, `x.astype(np.int8)`, `np.int8(x)` -
+    (normalised text, node).  A coordinate, length or index stored in 8 or 16 bits wraps silently once a grid side / a count exceeds the range"""
+    out = []
+
+    def narrow(e) -> str | None:
+        t = X.U(e)
+        leaf = t.rsplit(".", 1)[-1].strip("'\"")
+        return leaf if leaf in NARROW_DTYPES and (t.startswith(("np.", "numpy.", "torch.")) or isinstance(e, ast.Constant)) else None
+    for n in N.walk_no_nested_defs(fn_node):
+        if not isinstance(n, ast.Call):
+            continue
+        d = next((narrow(k.value) for k in n.keywords if k.arg == "dtype" and narrow(k.value)), None)
+        if d is None and isinstance(n.func, ast.Attribute) and n.func.attr in ("astype", "to", "type") and n.args and narrow(n.args[0]):
+            d = narrow(n.args[0])
+        if d is None and narrow(n.func) and n.args:
+            d = narrow(n.func)
+        if d is not None:
+            head = X.U(n.func) if not (isinstance(n.func, ast.Attribute) and n.func.attr in ("astype", "to", "type")) else "." + n.func.attr
+            out.append((f"{head}:{d}", n))
+    return out
+
+
+def decorator_texts(fn_node: ast.AST) -> list[str]:
+    return [X.U(d) for d in getattr(fn_node, "decorator_list", [])]
+
+
+SAFE_DECORATORS = {"staticmethod", "classmethod", "property", "functools.wraps", "wraps", "abstractmethod", "abc.abstractmethod", "typing.overload", "overload",
+                   "typing.no_type_check", "typing.final", "final", "typing.override", "override"}
+
+
+def stateful_wrapper(dec_fn: ast.AST, module_names) -> list[str]:
+    """state a decorator defined in the package keeps between calls of the function it wraps: writes to module-level containers, to the
+    instance passed as first argument of the inner wrapper, or to a container created in the decorator body (closure cell)"""
+    found = []
+    MUT = {"append", "extend", "insert", "pop", "remove", "clear", "update", "setdefault", "add", "discard", "popitem", "__setitem__"}
+    cells = {t.id for st in getattr(dec_fn, "body", []) if isinstance(st, (ast.Assign, ast.AnnAssign)) and getattr(st, "value", None) is not None
+             for t in (st.targets if isinstance(st, ast.Assign) else [st.target]) if isinstance(t, ast.Name)}
+    for inner in ast.walk(dec_fn):
+        if not isinstance(inner, (ast.FunctionDef, ast.Lambda)) or inner is dec_fn:
+            continue
+        if isinstance(inner, ast.FunctionDef):
+            w, _ = X.self_state_uses(inner)
+            found += [f"instance state `{a}` written by the wrapper" for a in w]
+            found += [f"module state written by the wrapper: {X.U(x)[:60]}" for x in X.module_state_writes(inner, module_names)]
+            if any(isinstance(x, ast.Nonlocal) for x in ast.walk(inner)):
+                found.append("nonlocal rebinding in the wrapper")
+        for x in ast.walk(inner):
+            tg = None
+            if isinstance(x, ast.Assign):
+                tg = x.targets[0]
+            elif isinstance(x, ast.AugAssign):
+                tg = x.target
+            if isinstance(tg, ast.Subscript) and isinstance(tg.value, ast.Name) and tg.value.id in cells:
+                found.append(f"closure container `{tg.value.id}` written by the wrapper")
+            if isinstance(x, ast.Call) and isinstance(x.func, ast.Attribute) and x.func.attr in MUT and isinstance(x.func.value, ast.Name) and x.func.value.id in cells:
+                found.append(f"closure container `{x.func.value.id}` mutated by the wrapper")
+            # attributes stored on the wrapped function object (`func.cache = {}` style memo)
+            if isinstance(tg, (ast.Attribute, ast.Subscript)):
+                b = tg
+                while isinstance(b, (ast.Attribute, ast.Subscript)):
+                    b = b.value
+                a0 = getattr(dec_fn, "args", None)
+                if isinstance(b, ast.Name) and a0 is not None and b.id in {p_.arg for p_ in a0.args}:
+                    found.append(f"state stored on the decorated function `{b.id}`")
+    return sorted(set(found))
+
+
+CONSTRUCTORS = ("__init__", "__post_init__", "__new__", "__init_subclass__")
+
+
+def instance_state(index) -> dict[str, dict[str, str]]:
+    """class qualname -> {attribute: usage} over all methods of the class, usage a subset of "c" (written in a constructor), "w" (written in
+    another method), "r" (read)"""
+    out: dict[str, dict[str, str]] = {}
+    for cq, c in sorted(index.classes.items()):
+        use: dict[str, set] = {}
+        for name, m in c.methods.items():
+            if m.is_static or m.is_classmethod:
+                continue
+            w, r = X.self_state_uses(m.node)
+            for a in w:
+                use.setdefault(a, set()).add("c" if name in CONSTRUCTORS else "w")
+            for a in r:
+                use.setdefault(a, set()).add("r")
+        out[cq] = {a: "".join(sorted(u)) for a, u in sorted(use.items())}
+    return out
+
+
+def make_narrowing_rule(prop: str, rule_id: str, prefixes: list[str]):
+    """no function in the call closure of the anchored functions stores coordinates / lengths / indices in a narrower element type than the pinned
+    tree does there (reference/exits.json["narrowing"], the narrow casts confirmed by reading: serialised int8 solutions, uint8 pixels, int8
+    adjacency lists): a new 8/16-bit cast wraps silently as soon as a grid side or a count exceeds the type's range"""
+    def run(ctx) -> None:
+        from sa.callgraph import CallGraph
+
+        cg = CallGraph(ctx.index)
+        entries = [q for q in sorted(ctx.index.functions) if any(q == p or q.startswith(p) for p in prefixes)]
+        closure = cg.closure(entries) if entries else []
+        ref = reference().get("narrowing", {})
+        n = 0
+        for q in sorted(closure):
+            f = ctx.index.functions[q]
+            cur = narrowing_casts(f.node)
+            n += 1
+            left = list(ref.get(q, []))
+            for key, node in cur:
+                if key in left:
+                    left.remove(key)
+                    continue
+                ctx.violation(f, {"narrow_cast": X.U(node)[:100], "kind": key, "pinned_tree_has_here": sorted(ref.get(q, []))},
+                              "functions reachable from the anchored functions narrow element types only where the pinned tree does",
+                              "values beyond the narrow type's range (a coordinate >= 128 in int8, a length >= 256 in uint8 ...) wrap around silently: the result "
+                              "leaves the grid / names other cells", node=node, rule=rule_id)
+        ctx.holds(("-", f"{rule_id} scope", 0), {"entry_functions": len(entries), "functions_in_closure": n, "narrow_casts_in_pinned_tree": sum(len(v) for v in ref.values())},
+                  "no new narrowing cast in any function reachable from the anchored functions")
+    return run
+
+
 def make_state_rule(prop: str, rule_id: str, prefixes: list[str]):
     """no function in the call closure of the anchored functions writes module-level state (containers assigned at module level,
     `global` rebinding) except the tabulated setters: a result that depends on such state depends on the history of the process
@@ -236,10 +409,68 @@ def make_state_rule(prop: str, rule_id: str, prefixes: list[str]):
             f = ctx.index.functions[q]
             ws = X.module_state_writes(f.node, f.module.assigns)
             n += 1
+            ref_decos = list(reference().get("decorators", {}).get(q, []))
+            for d_ in getattr(f.node, "decorator_list", []):
+                t_ = X.U(d_)
+                if t_ in ref_decos:
+                    ref_decos.remove(t_)
+                    continue
+                head = X.U(d_.func) if isinstance(d_, ast.Call) else t_
+                if head in SAFE_DECORATORS or head in _MEMO_DECORATORS:
+                    continue
+                target = None
+                try:
+                    target = ctx.index.functions.get(ctx.index.resolve(f.module, head, f.cls))
+                except Exception:
+                    target = None
+                if target is None:
+                    ctx.unknown(f, {"new_decorator": t_}, "a decorator that the pinned tree does not apply here is defined in the package, so that its wrapper can be read",
+                                "what the wrapper does to the function's behaviour cannot be seen", rule=rule_id)
+                    continue
+                st_ = stateful_wrapper(target.node, target.module.assigns)
+                if st_:
+                    ctx.violation(f, {"new_decorator": t_, "defined_at": target.qualname, "state": st_[:3]},
+                                  "a decorator added to a function reachable from the anchored functions keeps no state between calls",
+                                  "the wrapper memoises / counts across calls: results depend on the history of the object or process (stale entries survive "
+                                  "changes of the inputs they were computed from)", rule=rule_id)
+            memo = memoised_mutable(f.node)
+            if memo and q not in memoised_ok():
+                ctx.violation(f, {"memoised_by": memo, "returns": X.U(f.node.returns) if f.node.returns is not None else None},
+                              "no function reachable from the anchored functions is memoised unless its result is immutable (int / str / tuple of those ...)",
+                              "every caller gets the same object: once one of them changes it in place (draws on a picture, appends to a list), all later "
+                              "calls with equal arguments return the changed value", rule=rule_id)
             if ws and q not in STATE_WRITERS:
                 ctx.violation(f, {"writes_module_state": [X.U(w)[:90] for w in ws][:3]},
                               "the anchored functions and what they call keep no state at module level (only the tabulated setters write it)",
                               "a module-level cache / memo makes the result depend on earlier calls in the same process (stale or foreign entries are served)", node=ws[0], rule=rule_id)
-        ctx.holds(("-", f"{rule_id} scope", 0), {"entry_functions": len(entries), "functions_in_closure": n, "tabulated_setters": sorted(STATE_WRITERS)},
+        # hidden instance state: an attribute that no class of the pinned tree has (reference/exits.json["instance_state"]), is not declared at
+        # class level, and is written by a non-constructor method and read back: a per-object memo / cache / counter
+        ref_state = reference().get("instance_state", {})
+        known = {a for attrs in ref_state.values() for a in attrs}
+        for c_ in ctx.index.classes.values():
+            known |= set(c_.fields) | set(c_.assigns) | set(c_.methods)
+        cur_state = instance_state(ctx.index)
+        n_cls = 0
+        for cq in sorted({ctx.index.functions[q].cls.qualname for q in closure if ctx.index.functions[q].cls is not None}):
+            n_cls += 1
+            cur = cur_state.get(cq, {})
+            gone = [a for a, u in ref_state.get(cq, {}).items() if a not in cur]
+            for a, u in cur.items():
+                if a in known or not ("w" in u and "r" in u):
+                    continue
+                twin = next((g for g in gone if ref_state[cq][g] == u), None)
+                if twin is not None:
+                    gone.remove(twin)  # an attribute of the pinned tree with the same usage vanished: a rename
+                    continue
+                c_ = ctx.index.classes[cq]
+                where = [m for m in c_.methods.values() if a in X.self_state_uses(m.node)[0] and m.name not in CONSTRUCTORS]
+                readers = sorted(m.name for m in c_.methods.values() if a in X.self_state_uses(m.node)[1])
+                if not any(m.qualname in closure for m in c_.methods.values() if a in X.self_state_uses(m.node)[0] or a in X.self_state_uses(m.node)[1]):
+                    continue
+                ctx.violation(where[0], {"new_instance_state": a, "written_by": sorted(m.name for m in where), "read_by": readers},
+                              "methods reachable from the anchored functions keep no state on the object beyond the attributes the pinned tree has",
+                              "a per-object memo / cache makes the result depend on earlier calls on the same object: it survives changes of the inputs it was "
+                              "computed from (options, fields, added values), and hands the same mutable result to every caller", rule=rule_id)
+        ctx.holds(("-", f"{rule_id} scope", 0), {"entry_functions": len(entries), "functions_in_closure": n, "tabulated_setters": sorted(STATE_WRITERS), "classes_checked_for_instance_state": n_cls},
                   "no function reachable from the anchored functions writes module-level state")
     return run
